@@ -207,6 +207,27 @@ theorem login_policies_provenance (mt : TokType) (sd sm : Int) (a : LoginAuth) (
     · exact Or.inr (Or.inr h1)
   · exact Or.inr (Or.inl ⟨y, hy, hn⟩)
 
+/-- A login never hands out a BATCH token that carries a use limit (batch tokens are not stored: the limit could not be
+counted) — whichever of the auth method and the mount's `token_type` tuning made it a batch token (finding F105). -/
+theorem login_batch_token_has_no_use_limit (mt : TokType) (sd sm : Int) (a : LoginAuth) (t : LoginTok)
+    (h : login mt sd sm a = .ok t) (hb : t.batch = true) : t.numUses = 0 ∧ a.numUses = 0 := by
+  unfold login at h
+  simp only at h
+  split at h
+  · split at h
+    · contradiction
+    · split at h
+      · contradiction
+      · split at h
+        · contradiction
+        · rename_i hnb
+          injection h with h
+          subst h
+          simp only at hb
+          simp only [hb, Bool.true_and, bne_iff_ne, ne_eq, Decidable.not_not] at hnb
+          simp [hb, hnb]
+  · contradiction
+
 /-- Lifetime of a login token: positive and within the mount maximum, the backend's maximum and the explicit
 maximum (each when set), for a mount whose default lease TTL is positive. Uses `C05.calcTTL_bound`. -/
 theorem login_lifetime_bounded (mt : TokType) (sd sm : Int) (a : LoginAuth) (t : LoginTok)
